@@ -1,3 +1,6 @@
+import json
+
+import slevel
 import sprops
 
 PID = "C09"
@@ -8,8 +11,145 @@ def main(tier, seed):
                              ["Model/Sim.v", "Model/SimTime.v", "Model/Inline.v", "Oracle/SimCheck.v", "Oracle/SimOracle.v", "Proofs/SimP.v",
                               "Proofs/FlattenP.v", "Proofs/EqvP.v", "Proofs/WakeWfP.v", "Proofs/InlineP.v", "Proofs/InlineLoopP.v",
                               "Proofs/InlineScopeP.v", "Proofs/NonInterfLoopP.v", "Proofs/SimTimeP.v", "Model/NSim.v", "Proofs/InlineLatestP.v",
-                              "Proofs/Confluence2P.v", "Proofs/ScheduleP.v", "Proofs/SimTraceP.v", "Proofs/ParDevP.v", "Proofs/EqvCongP.v", "Proofs/AgreeP.v", "Proofs/FrameP.v", "Proofs/FuelP.v", "Proofs/InlineAllP.v", "Oracle/ScopeCheck.v", "Props/C09.v"],
-                             "transparency of system simulations", "flatten")
+                              "Proofs/Confluence2P.v", "Proofs/ScheduleP.v", "Proofs/SimTraceP.v", "Proofs/ParDevP.v", "Proofs/EqvCongP.v", "Proofs/AgreeP.v", "Proofs/FrameP.v", "Proofs/FuelP.v", "Proofs/InlineAllP.v", "Oracle/ScopeCheck.v", "Model/Interrupts.v", "Proofs/InterruptsP.v", "Oracle/XScriptOracle.v", "Props/C09.v"],
+                             "transparency of system simulations", "flatten", extra_part=burst_part)
 
 
-replay = sprops.replay_pair
+def replay(rp):
+    if rp.get("kind") == "burst":
+        return replay_burst(rp)
+    return sprops.replay_pair(rp)
+
+
+BURST_HEADER = ("From TV Require Import Base Model.Wiring Model.Ticker Model.Component Model.Sim Model.Interrupts "
+                "Oracle.SimCheck Oracle.SimOracle Oracle.XScriptOracle.")
+BURST_REASONS = {57: "nested-run-differs-from-interrupt-script-model", 58: "flat-run-differs-from-interrupt-script-model",
+                 73: "harness-flattening-differs-from-coq-flatten", 71: "nested-and-flattened-configuration-observe-differently",
+                 76: "interrupts-of-one-system-share-the-earliest-stamp", 99: "simulation-stalled-or-raised"}
+WITNESS = dict(cfg={1: dict(order=[(3, "dev"), (4, 2)], conns=[]), 2: dict(order=[(5, "dev"), (6, "dev")], conns=[])},
+               devs={3: (1, 0, 0), 5: (2, 0, 0), 6: (3, 0, 0)}, initial=0)
+
+
+def run_bursts(cfg, devs, initial, bursts):
+    """bursts: [(real ns, [(device, ns of processor time that pass before it raises), ...])]: the devices of a burst
+    raise their interrupts one after the other without the event loop (hence the master) running in between.
+    returns (run, [[(device, stamp)]]): the stamp is the wakeup time the master recorded for that interrupt"""
+    import asyncio
+    stamps = []
+
+    def on_start(loop, sched):
+        log = []
+        orig = sched.add_wakeup
+
+        def add_wakeup(component, when):
+            log.append(int(when))
+            return orig(component, when)
+        sched.add_wakeup = add_wakeup
+
+        async def go():
+            for (t, members) in bursts:
+                await asyncio.sleep(t / 1e9 - loop.vt)
+                cur = []
+                for (d, gap) in members:
+                    loop.vt += gap / 1e9
+                    n = len(log)
+                    await slevel.REG[d].raise_interrupt()
+                    cur.append((d, log[n] if len(log) > n else None))
+                stamps.append(cur)
+        loop.create_task(go())
+    t_end = max(t for t, _ in bursts) + 400_000_003
+    r = slevel.run_internal(cfg, devs, (1, 1), initial, [], t_end, on_start=on_start)
+    return r, stamps
+
+
+def render_burst(c, rn, stamps, rf):
+    from common import L, P, T, Zr
+    cfg = c["cfg"]
+    items = []
+    for cur in stamps:
+        for (d, w) in cur:
+            lvc, path = slevel.path_of(cfg, d)
+            items.append("XStim %s %s %s %s" % (P(d), P(lvc), L(T(P(l), P(x)) for l, x in path), Zr(w)))
+        items += ["XTick"] * (len(cur) + 1)
+
+    def obs(per):
+        return L(T(P(d), L(T(Zr(t), slevel.r_values(i)) for t, i in per.get(d, []))) for d in sorted(slevel.devices_of(cfg)))
+    return ("{| xc_cfg := %s; xc_flat := %s; xc_devs := %s; xc_initial := %s; xc_script := %s; xc_obsN := %s; xc_obsF := %s |}" % (
+        slevel.r_config(cfg), slevel.r_config(sprops.flatten(cfg)), slevel.r_devs(c["devs"]), Zr(c["initial"]), L(items), obs(rn["per"]), obs(rf["per"])))
+
+
+def eval_burst(c):
+    rn, sn = run_bursts(c["cfg"], c["devs"], c["initial"], c["bursts"])
+    rf, sf = run_bursts(sprops.flatten(c["cfg"]), c["devs"], c["initial"], c["bursts"])
+    # the stamps are read off the FLAT run, where every device has a wakeup entry of its own (in the nested run the master
+    # only sees the outermost system simulation and keeps the earlier of two stamps)
+    ok = all(w is not None for cur in sf for _, w in cur) and len(sf) == len(c["bursts"]) and not rn["error"] and not rf["error"] and not rn["errors"] and not rf["errors"]
+    return rn, rf, sn, sf, ok
+
+
+def burst_part(ck, tier, rng):
+    """C09 with interrupts raised back to back (the master cannot run in between) and processor time passing between
+    them: nested and flat run of the real schedulers against the interrupt-script model (Model/Interrupts.v)"""
+    from common import run_shards
+    cases = [dict(WITNESS, bursts=[(1_000_000_000, [(5, 0), (6, 1_000_000)])], name="witness of C09_inner_interrupts_refuted"),
+             dict(WITNESS, bursts=[(1_000_000_000, [(5, 0), (6, 0)])], name="the same with equal stamps"),
+             dict(WITNESS, bursts=[(1_000_000_000, [(3, 0), (6, 1_000_000)])], name="a top-level device and an inner device")]
+    for _ in range({"quick": 40, "thorough": 600}[tier]):
+        cfg = slevel.gen_config(rng, depth=rng.choice([1, 2, 2, 3]), p_sys=0.5)
+        if slevel.depth_of(cfg) < 2:
+            continue
+        devs = {d: (rng.randrange(1000), 0, 0) for d in slevel.devices_of(cfg)}     # devices that never ask to be called back
+        ds = slevel.devices_of(cfg)
+        bursts, t = [], 0
+        for _ in range(rng.randint(1, 3)):
+            t += rng.choice([200_000_000, 500_000_000])
+            members = [(rng.choice(ds), rng.choice([0, 0, 1_000, 250_000, 2_000_000])) for _ in range(rng.randint(2, 3))]
+            bursts.append((t, members))
+        cases.append(dict(cfg=cfg, devs=devs, initial=rng.choice([0, 0, 3_000_000_000]), bursts=bursts, name="generated"))
+    runs, terms = [], []
+    for c in cases:
+        rn, rf, sn, sf, ok = eval_burst(c)
+        runs.append((rn, rf, sf, ok))
+        terms.append(render_burst(c, rn, sf if ok else [], rf))
+    bad = run_shards(PID + "_bursts", BURST_HEADER, "xcase", "check_xcase", terms, shard_size=8)
+    for i, (rn, rf, sn, ok) in enumerate(runs):
+        if not ok:
+            bad.setdefault(i, []).append(99)
+    ck.evaluations += 2 * len(cases)
+    known = sum(1 for i in bad if bad[i] == [76])
+    ck.coverage.update(interrupt_burst_pairs=len(cases), interrupt_burst_pairs_sharing_a_stamp=known,
+                       interrupt_burst_disagreements=len([i for i in bad if bad[i] != [76]]))
+    for c in cases:
+        ck.count("burst:" + json.dumps([{str(k): v for k, v in c["cfg"].items()}, c["bursts"], c["initial"]], sort_keys=True, default=str),
+                 sum(len(m) for _, m in c["bursts"]) >= 2)
+    done = set()
+    for i in sorted(bad):
+        for code in bad[i]:
+            if code in done:
+                continue
+            done.add(code)
+            c, (rn, rf, sn, ok) = cases[i], runs[i]
+            d = dict(kind="burst", cfg={str(k): v for k, v in c["cfg"].items()}, devs={str(k): v for k, v in c["devs"].items()},
+                     initial=c["initial"], bursts=c["bursts"], stamps=sn, codes=bad[i],
+                     observed_nested={str(k): v for k, v in rn["per"].items()}, observed_flat={str(k): v for k, v in rf["per"].items()},
+                     errors=[rn["error"], rf["error"]] + rn["errors"] + rf["errors"])
+            if code in (71, 76, 99):
+                ck.report(BURST_REASONS[code], f"interrupts raised back to back ({c['name']}): {BURST_REASONS[code]}", d)
+            elif not any(x in (71, 99) for x in bad[i]):
+                d["broken"] = "correspondence Model/Interrupts.v vs the schedulers (interrupt scripts); C09_inner_interrupts_refuted and the script theorems of Props.C09"
+                ck.report("correspondence-broken", "interrupt-script model and implementation disagree on interrupts raised back to back", d, no_input=True)
+
+
+def replay_burst(rp):
+    from common import run_shards
+    cfg = {int(k): dict(order=[(c, (kk if kk == "dev" else int(kk))) for c, kk in v["order"]], conns=[tuple(x) for x in v["conns"]]) for k, v in rp["cfg"].items()}
+    c = dict(cfg=cfg, devs={int(k): tuple(v) for k, v in rp["devs"].items()}, initial=rp["initial"],
+             bursts=[(t, [tuple(m) for m in ms]) for t, ms in rp["bursts"]])
+    rn, rf, sn, sf, ok = eval_burst(c)
+    bad = run_shards("replay", BURST_HEADER, "xcase", "check_xcase", [render_burst(c, rn, sf if ok else [], rf)])
+    print("bursts:", c["bursts"], "stamps:", sf)
+    print("nested:", rn["per"])
+    print("flat:  ", rf["per"])
+    codes = bad.get(0, []) + ([] if ok else [99])
+    print("codes:", codes, [BURST_REASONS.get(x) for x in codes])
+    return 1 if codes else 0
